@@ -137,7 +137,7 @@ def run_shard(spec, rec):
         before = sum(v for k, v in rec.features.items() if k.startswith("str:") and k != "str:raw" or k.startswith("num:") and k not in ("num:int", "num:float"))
         text = G.render(q, R, feat=rec.features)
         after = sum(v for k, v in rec.features.items() if k.startswith("str:") and k != "str:raw" or k.startswith("num:") and k not in ("num:int", "num:float"))
-        docs = [D.doc_for(R, q, maxdepth=3, maxwidth=4) for _ in range(4)]
+        docs = [D.doc_for(R, q, maxdepth=3, maxwidth=4, shapes=0.01) for _ in range(4)]
         rec.wal({"query": text})
         try:
             with guard(60):
